@@ -322,9 +322,21 @@ def index_map_tables():
     for n in cls.body:
         if isinstance(n, ast.Assign) and any(_attr_name(t) == "TEN_DIGIT_MODULUS" for t in n.targets):
             modulus = _lit(n.value)
+    def _int_seq(v):
+        return isinstance(v, (ast.List, ast.Tuple)) and len(v.elts) >= 5 and \
+            all(isinstance(e, ast.Constant) and isinstance(e.value, int) for e in v.elts)
+    # the bases of the hash: the literal list / tuple of integers bound inside `_hash`, or - when `_hash` refers to a
+    # class- or module-level constant instead (a harmless hoisting) - the one integer sequence bound at that level
     for n in ast.walk(_fn(cls, "_hash")):
-        if isinstance(n, ast.Assign) and any(_attr_name(t) == "primes" for t in n.targets):
+        if isinstance(n, ast.Assign) and _int_seq(n.value):
             primes = list(_lit(n.value))
+    if primes is None:
+        cands = [n for n in list(cls.body) + list(im.body) if isinstance(n, ast.Assign) and _int_seq(n.value)]
+        used = {x.attr for x in ast.walk(_fn(cls, "_hash")) if isinstance(x, ast.Attribute)} | \
+               {x.id for x in ast.walk(_fn(cls, "_hash")) if isinstance(x, ast.Name)}
+        cands = [n for n in cands if any((_attr_name(t) or "") in used for t in n.targets)]
+        if len(cands) == 1:
+            primes = list(_lit(cands[0].value))
     for n in ast.walk(_fn(cls, "_spread")):
         if isinstance(n, ast.BinOp) and isinstance(n.op, ast.Mult):
             for side in (n.left, n.right):
